@@ -31,16 +31,19 @@ type semCase struct {
 }
 
 type c25ctx struct {
-	c     *core.Ctx
-	tool  string
-	seq   int64
-	mu    sync.Mutex
-	acc   int
-	rej   int
-	lines int
-	repar int
-	equal int
-	flat  int
+	c        *core.Ctx
+	tool     string
+	seq      int64
+	nschemas int64
+	ncli     int64
+	allCLI   bool
+	mu       sync.Mutex
+	acc      int
+	rej      int
+	lines    int
+	repar    int
+	equal    int
+	flat     int
 }
 
 // runTool runs `tl2gen --language=canonical` on the files (relative to dir) and returns the listing lines.
@@ -102,9 +105,49 @@ func (x *c25ctx) evalListing(d *drv, sc *semCase) ([]finding, error) {
 	if err := os.WriteFile(filepath.Join(dir, "s.tl"), []byte(text), 0o644); err != nil {
 		return nil, err
 	}
-	lines, accepted, out, err := x.runTool(dir, "s.tl")
-	if err != nil {
+	n := atomic.AddInt64(&x.nschemas, 1)
+	viaCLI := x.allCLI || n%10 == 1
+	var lines []string
+	var accepted bool
+	var out string
+	// in-process run of the same code path as cmd/tl2gen (options binding, kernel, generator)
+	var reply struct {
+		Panic string `json:"panic"`
+		Res   []struct {
+			Panic    string `json:"panic"`
+			HErr     string `json:"harness_error"`
+			Accepted bool   `json:"accepted"`
+			Error    string `json:"error"`
+			Listing  string `json:"listing"`
+		} `json:"res"`
+	}
+	if err := d.p.Call(map[string]any{"op": "canonical", "schemas": [][][2]string{{{"s.tl", text}}}}, &reply); err != nil {
 		return nil, err
+	}
+	if reply.Panic != "" || len(reply.Res) != 1 || reply.Res[0].HErr != "" {
+		return nil, fmt.Errorf("canonical op failed in the driver: %s %v", reply.Panic, reply.Res)
+	}
+	ip := reply.Res[0]
+	if ip.Panic != "" {
+		add("panic", fk, "canonical listing generation panicked: "+ip.Panic)
+		return fs, nil
+	}
+	accepted = ip.Accepted
+	if accepted {
+		lines = strings.Split(strings.TrimSuffix(ip.Listing, "\n"), "\n")
+	}
+	if viaCLI {
+		cl, cacc, cout, err := x.runTool(dir, "s.tl")
+		if err != nil {
+			return nil, err
+		}
+		atomic.AddInt64(&x.ncli, 1)
+		if cacc != accepted || strings.Join(cl, "\n") != strings.Join(lines, "\n") {
+			if !(strings.Contains(cout, "panic:")) {
+				return nil, fmt.Errorf("the CLI and the in-process run of the canonical generator disagree (accepted %v/%v) on %q", cacc, accepted, clip(text, 300))
+			}
+		}
+		lines, accepted, out = cl, cacc, cout
 	}
 	if !accepted {
 		if strings.Contains(out, "panic:") {
@@ -279,12 +322,17 @@ func runC25(c *core.Ctx) error {
 	jobs := []mcJob{{"derived_accepted_schemas", deriveOpts(c.Pick(5, 7), 1, 0, true, []int{1})},
 		{"derived_accepted_schemas_2", deriveOpts(c.Pick(4, 6), 2, 0, true, []int{1})}}
 	run := func(j mcJob) error {
-		p, err := newPool(c, d, 4, 8, handle)
+		dj, err := d.fresh()
+		if err != nil {
+			return err
+		}
+		defer dj.Close()
+		p, err := newPool(c, dj, 3, 8, handle)
 		if err != nil {
 			return err
 		}
 		j.opts.OnEmit = p.emit
-		j.opts.Workers = workers(c)
+		j.opts.Workers = workers(c)/2 + 1
 		res, err := c.MustTLC(j.opts)
 		perr := p.wait()
 		if err != nil {
@@ -299,21 +347,37 @@ func runC25(c *core.Ctx) error {
 		c.Add("cases_"+j.label, res.NEmits)
 		return nil
 	}
+	errs := make(chan error, len(jobs)+1)
 	for _, j := range jobs {
-		if err := run(j); err != nil {
-			return err
+		j := j
+		go func() { errs <- run(j) }()
+	}
+	go func() {
+		d3, err := d.fresh()
+		if err != nil {
+			errs <- err
+			return
+		}
+		defer d3.Close()
+		errs <- listingRepo(c, d3, x, st)
+	}()
+	var first error
+	for i := 0; i < len(jobs)+1; i++ {
+		if err := <-errs; err != nil && first == nil {
+			first = err
 		}
 	}
-	if err := listingRepo(c, d, x, st); err != nil {
-		return err
+	if first != nil {
+		return first
 	}
-	if err := selfTestC25(c, d, &c25ctx{c: c, tool: tool}); err != nil {
+	if err := selfTestC25(c, d, &c25ctx{c: c, tool: tool, allCLI: true}); err != nil {
 		return err
 	}
 	c.Set("schemas_accepted_by_compiler", x.acc)
 	c.Set("schemas_rejected_by_compiler", x.rej)
 	c.Set("impl_accepted", x.acc)
 	c.Set("impl_rejected", x.rej)
+	c.Set("schemas_listed_by_the_real_CLI", int(x.ncli))
 	c.Set("listing_lines_compared", x.lines)
 	c.Set("lines_reparsed", x.repar)
 	c.Set("lines_reparsed_equal_to_source", x.equal)
@@ -322,7 +386,7 @@ func runC25(c *core.Ctx) error {
 	if x.acc < 50 || x.equal == 0 {
 		return fmt.Errorf("vacuous: only %d derived schemas were accepted by the compiler (%d rejected), %d lines re-parsed equal", x.acc, x.rej, x.equal)
 	}
-	c.Set("rule", "TLC derives schemas (fixed prelude + 1..2 derived constructors/functions from compiler-safe pools) of weight <= MaxW; each is written to a file and given to the real CLI `tl2gen --language=canonical`; the listing must equal the specified listing (5 header lines, one ListingLine per constructor/function in source order, effective tag = explicit tag or CRC32 of CanonText, modifiers ordered by flag, ` //  <file>`), and every line terminated with a line break and `;` must parse (TL1 parser) to ListingDenotes(combinator); repository schemas: listing lines validated by TLC (TraceTLSyntax)")
+	c.Set("rule", "TLC derives schemas (fixed prelude + 1..2 derived constructors/functions from compiler-safe pools) of weight <= MaxW; each is listed by the canonical generator (every 10th schema and all repository schemas through the real CLI `tl2gen --language=canonical`, the others through the same options/kernel/generator code in the driver process; both must agree); the listing must equal the specified listing (5 header lines, one ListingLine per constructor/function in source order, effective tag = explicit tag or CRC32 of CanonText, modifiers ordered by flag, ` //  <file>`), and every line terminated with a line break and `;` must parse (TL1 parser) to ListingDenotes(combinator); repository schemas: listing lines validated by TLC (TraceTLSyntax)")
 	c.Assume("schemas rejected by the compiler are outside the quantifier (accepted schemas) and only counted")
 	c.Assume("a function line is re-parsed after a ---functions--- marker (the listing itself carries no sections); modifiers are compared in listing order")
 	c.Assume("the header lines are fixed text of the tool (int, long, float, double, string) and combinators with these names are not listed again")
